@@ -350,6 +350,8 @@ impl<M: Manager, W: From<Object<M>>> Pool<M, W> {
             .await?
         };
 
+        #[cfg(feature = "verif_hooks")]
+        crate::verif::point("mg.get.after_permit");
         let inner_obj = loop {
             let inner_obj = match self.inner.config.queue_mode {
                 QueueMode::Fifo => self.inner.slots.lock().unwrap().vec.pop_front(),
@@ -381,6 +383,8 @@ impl<M: Manager, W: From<Object<M>>> Pool<M, W> {
         timeouts: &Timeouts,
         inner_obj: ObjectInner<M>,
     ) -> Result<Option<ObjectInner<M>>, PoolError<M::Error>> {
+        #[cfg(feature = "verif_hooks")]
+        crate::verif::point("mg.try_recycle.entry");
         let mut unready_obj = UnreadyObject {
             inner: Some(inner_obj),
             pool: &self.inner,
@@ -425,6 +429,8 @@ impl<M: Manager, W: From<Object<M>>> Pool<M, W> {
         &self,
         timeouts: &Timeouts,
     ) -> Result<Option<ObjectInner<M>>, PoolError<M::Error>> {
+        #[cfg(feature = "verif_hooks")]
+        crate::verif::point("mg.try_create.entry");
         let mut unready_obj = UnreadyObject {
             inner: Some(ObjectInner {
                 obj: apply_timeout(
@@ -466,6 +472,8 @@ impl<M: Manager, W: From<Object<M>>> Pool<M, W> {
         if self.inner.semaphore.is_closed() {
             return;
         }
+        #[cfg(feature = "verif_hooks")]
+        crate::verif::point("mg.resize.after_closed_check");
         let mut slots = self.inner.slots.lock().unwrap();
         let old_max_size = slots.max_size;
         slots.max_size = max_size;
@@ -558,6 +566,8 @@ impl<M: Manager, W: From<Object<M>>> Pool<M, W> {
     /// This operation resizes the pool to 0.
     pub fn close(&self) {
         self.resize(0);
+        #[cfg(feature = "verif_hooks")]
+        crate::verif::point("mg.close.after_resize");
         self.inner.semaphore.close();
     }
 
@@ -588,6 +598,21 @@ impl<M: Manager, W: From<Object<M>>> Pool<M, W> {
     #[must_use]
     pub fn manager(&self) -> &M {
         &self.inner.manager
+    }
+
+    /// Read-only snapshot for the verification harness.
+    #[cfg(feature = "verif_hooks")]
+    #[must_use]
+    pub fn verif_snapshot(&self) -> crate::verif::ManagedSnapshot {
+        let slots = self.inner.slots.lock().unwrap();
+        crate::verif::ManagedSnapshot {
+            permits: self.inner.semaphore.available_permits(),
+            closed: self.inner.semaphore.is_closed(),
+            size: slots.size,
+            idle: slots.vec.len(),
+            max_size: slots.max_size,
+            users: self.inner.users.load(Ordering::Relaxed),
+        }
     }
 }
 
@@ -633,10 +658,14 @@ where
 impl<M: Manager> PoolInner<M> {
     fn return_object(&self, mut inner: ObjectInner<M>) {
         let _ = self.users.fetch_sub(1, Ordering::Relaxed);
+        #[cfg(feature = "verif_hooks")]
+        crate::verif::point("mg.return.before_lock");
         let mut slots = self.slots.lock().unwrap();
         if slots.size <= slots.max_size {
             slots.vec.push_back(inner);
             drop(slots);
+            #[cfg(feature = "verif_hooks")]
+            crate::verif::point("mg.return.before_add_permits");
             self.semaphore.add_permits(1);
         } else {
             slots.size -= 1;
@@ -650,6 +679,8 @@ impl<M: Manager> PoolInner<M> {
         let add_permits = slots.size <= slots.max_size;
         slots.size -= 1;
         drop(slots);
+        #[cfg(feature = "verif_hooks")]
+        crate::verif::point("mg.detach.before_add_permits");
         if add_permits {
             self.semaphore.add_permits(1);
         }
